@@ -17,7 +17,7 @@ SHARD = 150
 RULE = ('programs of 1-3 base tables (0-4 rows over columns k,v,w,x,..., ints and None, incl. duplicate column '
         'names) followed by op chains of length <= 4 drawn from 17 operation kinds with parameters taken from '
         'the live column list (plus some absent/ambiguous names); exhaustive part: every chain of length <= 2 over '
-        'a menu of ~80 concrete operations on two fixed tables (thorough tier: all, quick tier: all of length 1 '
+        'a menu of 76 concrete operations on two fixed tables (thorough tier: all, quick tier: all of length 1 '
         'and a seed-dependent sample of length 2); every DataFrame of every program is observed; non-trivial = at '
         'least one operation step executed without error; distinct by canonical JSON of the program')
 ASSUMPTIONS = [
@@ -261,6 +261,13 @@ def observe(df, ordered, valued):
     return (cols, names, out, cnt, same)
 
 
+STATUS = {}
+
+
+def extra_evidence():
+    return {'first_exception_histogram': dict(sorted(STATUS.items()))}
+
+
 def impl(case):
     mods = _imports()
     Context, SparkSession = mods[0], mods[1]
@@ -284,6 +291,8 @@ def impl(case):
         dfs.append(df)
         fl.append(f)
         obs.append(o)
+    key = 'no exception' if status is None else f'{OPNAMES[case[len(obs)][0]]}:{status.name}'
+    STATUS[key] = STATUS.get(key, 0) + 1
     return (obs, status)
 
 
@@ -421,7 +430,7 @@ def exhaustive(rng, tier):
             pairs.append(base + [op1, op2])
     pairs = [p for p in pairs if ok_for_model(p)]
     if tier == 'quick':
-        pairs = rng.sample(pairs, 900)
+        pairs = rng.sample(pairs, 1400)
     return cases + pairs
 
 
@@ -641,7 +650,7 @@ def generate(rng, tier):
     mods = _imports()
     cases = load_corpus()
     cases += exhaustive(rng, tier)
-    n = 1100 if tier == 'quick' else 14000
+    n = 1500 if tier == 'quick' else 20000
     for _ in range(n):
         p = random_program(rng, mods)
         if p:
